@@ -91,11 +91,46 @@ Theorem C16_total : forall (k : nat) dec a secret nonce,
 Proof. exact decrypt_token_total. Qed.
 Print Assumptions C16_total.
 
+(* the remaining algorithm strings of decrypt_user_identity_token_password (null or empty: the
+   plain text branch; any other URI: refused) never panic either, for any password bytes *)
+Theorem C16_total_other_algorithms : forall uri secret, decrypt_token_other uri secret <> Panic.
+Proof. exact decrypt_token_other_total. Qed.
+Print Assumptions C16_total_other_algorithms.
+
 (* ... and it is Ok exactly when the decrypted bytes have the layout  length ++ password ++ nonce *)
 Theorem C16_decrypt_reference : forall plain dst_len nonce, (length plain <= dst_len)%nat ->
   parse_plain true plain dst_len nonce = match ref_parse plain nonce with Some pw => Ok pw | None => Err end.
 Proof. exact parse_plain_ref. Qed.
 Print Assumptions C16_decrypt_reference.
+
+(* The server (ServerState::authenticate_username_identity_token, the decryption and password
+   comparison of ActivateSession).  [stored] is the password configured for the user named in the
+   token, None if there is no such user.  With the session's own nonce the session is activated
+   exactly when the user exists and the password is the configured one ... *)
+Theorem C16_authenticate_same_nonce : forall (R : Type) (k : nat) enc dec pol (rs : nat -> R) pw nonce stored,
+  enc_dec_law R k enc dec -> dec_len_law k dec -> (overhead (padding_of pol) < k)%nat ->
+  Z.of_nat (length (pw ++ nonce)) < 2 ^ 32 -> utf8_valid pw = true ->
+  exists ct, password_encrypt R k enc (padding_of pol) rs pw nonce = Ok ct /\
+    (authenticate k dec (alg_of pol) (Some ct) nonce stored = Ok tt <-> stored = Some pw) /\
+    authenticate k dec (alg_of pol) (Some ct) nonce stored <> Panic.
+Proof. exact authenticate_same_nonce. Qed.
+Print Assumptions C16_authenticate_same_nonce.
+
+(* ... with any other nonce of the same length it is refused, whoever the user is and whatever
+   password is configured (an empty one included: a failed decryption is never an empty password) *)
+Theorem C16_authenticate_other_nonce : forall (R : Type) (k : nat) enc dec pol (rs : nat -> R) pw nonce nonce' stored,
+  enc_dec_law R k enc dec -> dec_len_law k dec -> (overhead (padding_of pol) < k)%nat ->
+  Z.of_nat (length (pw ++ nonce)) < 2 ^ 32 -> length nonce' = length nonce -> nonce' <> nonce ->
+  exists ct, password_encrypt R k enc (padding_of pol) rs pw nonce = Ok ct /\
+    authenticate k dec (alg_of pol) (Some ct) nonce' stored = Err.
+Proof. exact authenticate_other_nonce. Qed.
+Print Assumptions C16_authenticate_other_nonce.
+
+(* ... and whatever bytes the token carries as password, the server answers Ok or Err *)
+Theorem C16_authenticate_total : forall (k : nat) dec a secret nonce stored,
+  dec_len_law k dec -> authenticate k dec a secret nonce stored <> Panic.
+Proof. exact authenticate_total. Qed.
+Print Assumptions C16_authenticate_total.
 
 (* the cipher the correspondence model runs with satisfies the two laws, so all of the above
    applies to [run] *)
